@@ -8,8 +8,8 @@ cd $wt
 git apply "$src/patch.diff" || { echo "APPLY-FAIL $name"; exit 1; }
 suite=$( (GOPROXY=off go build ./... && GOPROXY=off go test -count=1 ./... && cd internal/app && GOPROXY=off go build ./... && GOPROXY=off go test -count=1 ./... ) 2>&1 | grep -c "^FAIL\|cannot\|error")
 [ "$suite" = "0" ] || { echo "SUITE-FAILS-WITH-PATCH $name"; exit 1; }
-timeout 1200 sh "$src/run_demo.sh" $wt > /tmp/confirm-with.log 2>&1; with=$?
+timeout 1200 bash "$src/run_demo.sh" $wt > /tmp/confirm-with.log 2>&1; with=$?
 git checkout -q -- . ; git clean -fdq
-timeout 1200 sh "$src/run_demo.sh" $wt > /tmp/confirm-without.log 2>&1; without=$?
+timeout 1200 bash "$src/run_demo.sh" $wt > /tmp/confirm-without.log 2>&1; without=$?
 echo "with patch: exit $with   without patch: exit $without"
 if [ $with -ne 0 ] && [ $without -eq 0 ]; then echo "CONFIRMED $name"; else echo "NOT-CONFIRMED $name"; exit 1; fi
